@@ -45,6 +45,8 @@ def ctor_variations(rng, cfg):
         cfg["version_auto"] = True  # version=None: v3 iff a user is given, else v2c
     if rng.random() < 0.1 and not cfg.get("version_auto"):
         cfg["version_int"] = True  # version=1 instead of SnmpVersion.v2c
+    if rng.random() < 0.08 and cfg["version"] in ("v1", "v2c") and not cfg.get("version_auto"):
+        cfg["spurious_user"] = True  # user= given although the version is stated as v1 / v2c: the version decides
     if rng.random() < 0.1:
         cfg["tos"] = rng.choice([0x10, 0x28, 0xB8])
     if rng.random() < 0.1:
